@@ -444,6 +444,13 @@ func checkC17(w *World, r *Report) {
 					}
 					continue
 				}
+				// a call in a loop: its error is looked at before the next pass makes the call
+				// again (an error that only lives in a variable the next pass overwrites is lost
+				// for every pass but the last)
+				if ci, isInstr := v.(ssa.Instruction); isInstr && overwrittenUnseen(ci, fl) {
+					r.bad("R17.1", ssaName(fn), construct, pos, "the call sits in a loop and the loop can come round to it again without any test of this error in between: the error of every pass but the last is overwritten unseen, so a failure is replaced by output (or by an unrelated later error)")
+					continue
+				}
 				// strong clause: on the non-nil edge no path returns a nil error
 				if msg := a.nilReturnOnFailure(fn, ev, fl, strings.HasPrefix(kind, "Loader.")); msg != "" {
 					r.bad("R17.1", ssaName(fn), construct, pos, msg)
@@ -1078,4 +1085,92 @@ func (a *errAnalysis) withdraws(g *ssa.Function, j int) bool {
 		a.wdMemo[key] = 3
 	}
 	return res
+}
+
+
+// overwrittenUnseen: the block of call c lies on a cycle that passes no nil test of the call's
+// error (and no instruction that puts the error away: a wrapping call, an append, a store into a
+// collector).
+func overwrittenUnseen(c ssa.Instruction, fl *errFlow) bool {
+	home := c.Block()
+	tests := map[*ssa.BasicBlock]bool{}
+	for _, bo := range fl.nilTests {
+		if bo.Referrers() == nil {
+			continue
+		}
+		for _, ref := range *bo.Referrers() {
+			if iff, ok := ref.(*ssa.If); ok {
+				tests[iff.Block()] = true
+			}
+		}
+	}
+	// consumers other than tests: calls/stores that take a derived value
+	for v := range fl.derived {
+		if v.Referrers() == nil {
+			continue
+		}
+		for _, ref := range *v.Referrers() {
+			switch x := ref.(type) {
+			case ssa.CallInstruction:
+				if x != c {
+					tests[x.Block()] = true
+				}
+			case *ssa.Store:
+				if _, isAlloc := x.Addr.(*ssa.Alloc); !isAlloc {
+					tests[x.Block()] = true
+				}
+			case *ssa.Return:
+				tests[x.Block()] = true
+			}
+		}
+	}
+	if tests[home] {
+		// the test may precede the call in the same block (loop rotated): only a test after it counts
+		after := false
+		seenCall := false
+		for _, in := range home.Instrs {
+			if in == c {
+				seenCall = true
+				continue
+			}
+			if !seenCall {
+				continue
+			}
+			if _, ok := in.(*ssa.If); ok {
+				after = true
+			}
+			if _, ok := in.(ssa.CallInstruction); ok {
+				after = true
+			}
+			if _, ok := in.(*ssa.Return); ok {
+				after = true
+			}
+		}
+		if after {
+			return false
+		}
+	}
+	seen := map[*ssa.BasicBlock]bool{}
+	var dfs func(b *ssa.BasicBlock) bool
+	dfs = func(b *ssa.BasicBlock) bool {
+		if b == home {
+			return true
+		}
+		if seen[b] || tests[b] {
+			return false
+		}
+		seen[b] = true
+		for _, s := range b.Succs {
+			if dfs(s) {
+				return true
+			}
+		}
+		return false
+	}
+	for _, s := range home.Succs {
+		if dfs(s) {
+			return true
+		}
+	}
+	return false
 }
